@@ -8,6 +8,7 @@ from ..srcmodel import unparse, norm, walk_no_nested, calls_in
 from .common import is_method_call, cfg_of, get_kw, recv_of
 from .tagtable import constructors
 from . import tr
+from . import unitrules
 from ..fde import FDE
 from .common import node_obj, fde_guard
 
@@ -19,6 +20,7 @@ DECIDED = [
     'R2: complete scan: check_missing visits every node position (nodes_with_paths with recursion and duplicates on, or map_nodes without result caching), tests isinstance(node, RequiredNode), has no early exit in the loop, and raises iff the collected list is non-empty with all collected paths in the message.',
     'R3: the tree walk descends by type (isinstance(child, ComposedNode)), not by is_leaf (function nodes claim is_leaf but have argument children), passes recursion on and yields every non-container child.',
     'R4: !required / !required: constructors build RequiredNode.',
+    'R5: Config.__init__ evaluated for 5 argument shapes: the required-value check runs on the merged tree before anything is evaluated, whatever context is passed; a deep copy is what gets evaluated.',
 ]
 UNDECIDED = ['which placeholders survive a given merge history is decided by C02-C04, not here.']
 
@@ -172,11 +174,13 @@ def check(repo, run, tier):
     g(r2, repo, run)
     g(r3, repo, run)
     g(r4, repo, run)
+    g(unitrules.config_entry, repo, run, 'C14.R5')
     g.done()
 
 
 def mutants(repo):
     return [
+        Mutant('check-missing-only-for-default-context', lambda r: in_func(r, 'Config.__init__', "            Config.check_missing(config_dict)\n            self._source = config_dict", "            if eval_ctx is None:\n                Config.check_missing(config_dict)\n            self._source = config_dict"), ['C14.R5', 'C14.R1']),
         Mutant('lazy-check-after-evaluate', lambda r: in_func(r, 'Config.__init__', "            Config.check_missing(config_dict)\n", ""), ['C14.R1']),
         Mutant('check-after-deepcopy-evaluate', lambda r: in_func(r, 'Config.__init__',
                "            Config.check_missing(config_dict)\n            self._source = config_dict\n            pre_evaluate = copy.deepcopy(config_dict)\n            if eval_ctx is None:\n                eval_ctx = EvalContext()\n            evaluated = eval_ctx.evaluate(pre_evaluate)\n",
